@@ -86,6 +86,10 @@ def generate(tier, rng):
                             continue        # without ANSI support clear() has nothing to send
                         yield {"kind": kind, "method": name, "ansi": ansi, "quiet": quiet,
                                "verbosity": v, "flags": f, "has_flags": has_flags}
+                        if "line" in name and kind != "section2":
+                            # an EMPTY message written as a line is a line break: gated like any other text
+                            yield {"kind": kind, "method": name, "ansi": ansi, "quiet": quiet,
+                                   "verbosity": v, "flags": f, "has_flags": has_flags, "text": ""}
 
 
 def exhaustive(tier):
@@ -154,9 +158,9 @@ def run_impl(case):
     if case["method"] == "clear":
         fn()
     elif case["has_flags"]:
-        fn("payload", flags=case["flags"])
+        fn(case.get("text", "payload"), flags=case["flags"])
     else:
-        fn("payload")
+        fn(case.get("text", "payload"))
     out = fetch()[base:]
     rep = _reported(target)
     if kind == "section2":
@@ -164,7 +168,7 @@ def run_impl(case):
         older.write_line("later")
         out = fetch()[base:]
         return {"wrote": "payload" in out, "contains_payload": "payload" in out, "reported": rep}
-    return {"wrote": bool(out), "contains_payload": "payload" in out, "reported": rep}
+    return {"wrote": bool(out), "contains_payload": "payload" in out or "text" in case, "reported": rep}
 
 
 def model_requests(case):
@@ -209,7 +213,8 @@ def oracle(case, obs):
 
 def nontrivial_key(case, obs):
     if case["quiet"] or _lowest(case["flags"]) > 0:
-        return (case["kind"], case["method"], case["ansi"], case["quiet"], case["verbosity"], case["flags"])
+        return (case["kind"], case["method"], case["ansi"], case["quiet"], case["verbosity"], case["flags"],
+                case.get("text", "payload"))
     return None
 
 
